@@ -332,6 +332,7 @@ class CrashNet:
             w._cache = {}
             w.most_recent_read_submit = None
             w.read_receipt_mutex = threading.Lock()
+            w._mailbox_mutex = threading.Lock()
             w.incoming_thread = None
             self.node[i] = w
             self.up_conn[i] = w._conn
